@@ -50,6 +50,9 @@ def gen_history(rng, n):
             e = gen.gen_event(rng, known_ids=[x["id"] for x in evs], authors=AUTH, kinds=[1, 7, 4, 1],
                               times=[T0, T0 + 1, T0 + 2, T0 + 50])
             e["tags"] = [t for t in e["tags"] if t and t[0] not in ("expiration", "d")]
+            if rng.random() < 0.15:
+                # published under a NIP-26 delegation: the delegator is *not* the author of this event
+                e["tags"].append(["delegation", rng.choice([a for a in AUTH if a != e["pubkey"]] or AUTH), "kind=1", "00" * 64])
             evs.append(e)
         else:
             tgt = rng.choice(targets)
@@ -73,6 +76,10 @@ def gen_history(rng, n):
             elif rr < 0.25:
                 tags.append(["p", tgt["pubkey"]])
             who = tgt["pubkey"] if rng.random() < 0.65 else rng.choice(AUTH)
+            # (only a well-formed key can sign a deletion: an event with any other pubkey is never admitted)
+            delegators = [t[1] for t in tgt["tags"] if t and t[0] == "delegation" and len(t) > 1 and t[1] in AUTH]
+            if delegators and rng.random() < 0.6:
+                who = delegators[0]          # the delegator tries to delete the delegatee's event
             evs.append({"id": gen.mkid(rng), "pubkey": who, "created_at": tgt["created_at"] + rng.choice([-1, 0, 1, 1, 2, 100]),
                         "kind": 5, "tags": tags, "content": "", "sig": "00" * 64})
     return evs
@@ -172,7 +179,8 @@ def run(report, tier, seed):
     report.coverage["rule"] = (
         "histories of 3-10 events over 3 authors (deletions also with no usable e reference: none, only a / p tags, only malformed ids): regular events (ids starting 00/ff/random, 4 timestamps) and kind-5 "
         "deletions referencing own / foreign / unknown / several / malformed ('zz', bare e tag, upper-case hex) ids, "
-        "created -1/0/+1/+2/+100 s relative to the target, in generated arrival order, on both backends; non-trivial = "
+        "created -1/0/+1/+2/+100 s relative to the target, events published under a NIP-26 delegation tag and deletions signed by "
+        "the delegator (who is not the author), in generated arrival order, on both backends; non-trivial = "
         "the history contains a deletion")
     report.assumptions += ["validators disabled (synthetic unsigned events)"]
     try:
